@@ -63,8 +63,18 @@ class Parser:
     # ---------------------------------------------------------------- program
     def program(self, name):
         rels, rules, macros, attrs = [], [], [], []
+        self.consts = {}
         while self.peek() is not None:
             t = self.peek()
+            if t == "const":
+                self.next()
+                cname = self.next()
+                self.expect("=")
+                e = self.expr()
+                assert e["op"] == "lit", "const must be an integer literal"
+                self.consts[cname] = e["v"]
+                self.expect(";")
+                continue
             if t in ("rel", "lat") and re.match(r"[A-Za-z_]", self.peek(1) or "") and self.peek(2) == "(":
                 rels.append(self.decl())
             elif t == "macro":
@@ -75,7 +85,8 @@ class Parser:
                 self.expect(";")
             else:
                 rules.append(self.rule())
-        return {"name": name, "rels": rels, "rules": rules, "macros": macros, "attrs": attrs}
+        return {"name": name, "rels": rels, "rules": rules, "macros": macros, "attrs": attrs,
+                "consts": [{"name": k, "v": v} for k, v in self.consts.items()]}
 
     def decl(self):
         kind = self.next()
@@ -219,7 +230,10 @@ class Parser:
                 if e["op"] == "var":
                     args.append({"k": "v", "n": e["n"]})
                 elif e["op"] == "lit":
-                    args.append({"k": "c", "v": e["v"]})
+                    a = {"k": "c", "v": e["v"]}
+                    if "cname" in e:
+                        a["cname"] = e["cname"]
+                    args.append(a)
                 else:
                     args.append({"k": "e", "e": e})
             self.accept(",")
@@ -333,6 +347,8 @@ class Parser:
                 return {"op": t, "a": args[0]}
             assert len(args) == 2, (t, args)
             return {"op": t, "a": args[0], "b": args[1]}
+        if t in getattr(self, "consts", {}):
+            return {"op": "lit", "v": self.consts[t], "cname": t}      # a named Rust constant: a literal for the specification
         if not re.match(r"[A-Za-z_]", t):
             raise ParseError(f"unexpected token {t!r} in expression near {' '.join(self.toks[max(0,self.i-6):self.i+3])}")
         return {"op": "var", "n": t}
